@@ -27,7 +27,8 @@ from upx import q2s
 
 
 def tokenize(text):
-    """PDDL text -> tree.  `;` starts a comment; parentheses nest; every other maximal run of non-blank characters is an atom."""
+    """PDDL text -> tree.  `;` starts a comment; parentheses nest; every other maximal run of non-blank characters is an atom,
+    except that `-name` (a type separator glued to a type name, as in `?b -boat`) is two atoms, as for pyparsing."""
     toks, i, n = [], 0, len(text)
     while i < n:
         c = text[i]
@@ -43,7 +44,11 @@ def tokenize(text):
             j = i
             while j < n and text[j] not in "();" and not text[j].isspace():
                 j += 1
-            toks.append(("a", text[i:j]))
+            tok = text[i:j]
+            if len(tok) > 1 and tok[0] == "-" and tok[1].isalpha():
+                toks.append(("a", "-"))
+                tok = tok[1:]
+            toks.append(("a", tok))
             i = j
     stack = [[]]
     for t in toks:
@@ -745,16 +750,16 @@ def read_back(domain, problem, which):
     unified_planning.interop.from_pddl."""
     from unified_planning.io import PDDLReader
     if which == "ai":
+        # does the external `pddl` package parse the (lower-cased, as PDDLReader does) text at all?
         from pddl.parser.domain import DomainParser
         from pddl.parser.problem import ProblemParser
-        from unified_planning.interop.from_pddl import convert_problem_from_ai_pddl
         try:
-            ai_domain = DomainParser()(domain)
-            ai_problem = ProblemParser()(problem)
+            DomainParser()(domain.lower())
+            ProblemParser()(problem.lower())
         except Exception:
             return None, "skip"
         try:
-            return convert_problem_from_ai_pddl(ai_domain, ai_problem), None
+            return reader("ai").parse_problem_string(domain, problem), None
         except Exception as e:
             return None, f"{type(e).__name__}: {str(e)[:160]}"
     try:
@@ -1087,7 +1092,7 @@ class Variants:
     def expr(self, e):
         if isinstance(e, str):
             if e and e[0] == "-" and len(e) > 1 and e[1].isdigit() and not getattr(self, "in_init", False) \
-                    and self.hit("unary-minus", 0.3):
+                    and not getattr(self, "no_unary_minus", False) and self.hit("unary-minus", 0.3):
                 return ["-", e[1:]]
             return self.case(e)
         if not e:
@@ -1118,7 +1123,7 @@ class Variants:
         h = e[0]
         if h == "and":
             subs = [self.effect(x) for x in e[1:]]
-            if len(subs) >= 3 and self.hit("nested-and-effect", 0.15):
+            if len(subs) >= 3 and not getattr(self, "ai_friendly", False) and self.hit("nested-and-effect", 0.15):
                 k = self.rng.randrange(1, len(subs) - 1)
                 return ["and"] + subs[:k] + [["and"] + subs[k:]]
             return ["and"] + subs
@@ -1145,7 +1150,7 @@ class Variants:
                 i += 2
             elif k == ":effect":
                 if "pre" not in keys and self.hit("empty-precondition", 0.3):
-                    out += [":precondition", self.rng.choice([[], ["and"]])]
+                    out += [":precondition", ["and"] if getattr(self, "ai_friendly", False) else self.rng.choice([[], ["and"]])]
                 out += [k, self.effect(body[i + 1])]
                 i += 2
             else:
